@@ -32,7 +32,7 @@ RULE = (
     "{first generation, stale}. distinct = by (scenario, size, k, mode) / history; non-trivial = the fault "
     "actually fired (child died or raised) / the history contained both a due and a not-due construction."
 )
-RULE += " added since: histories run through four construction routes: Template(module_directory), Template(module_filename), TemplateLookup(module_directory), TemplateLookup(modulename_callable) without a module directory. a module file as an old code generator wrote it (magic number 5, module-level cache.Cache with the signature of that time). half of the histories render through a cached def with a backend honouring the template's start time."
+RULE += " added since: histories run through four construction routes: Template(module_directory), Template(module_filename), TemplateLookup(module_directory), TemplateLookup(modulename_callable) without a module directory. a module file as an old code generator wrote it (magic number 5, module-level cache.Cache with the signature of that time). half of the histories render through a cached def with a backend honouring the template's start time. thread race: 4 / 8 threads constructing Templates at once for one or distinct sources."
 ASSUMPTIONS = [
     "'die' is process death with the kernel intact (os._exit); power-loss ordering cannot be observed from user space",
     "the injector counts exists/stat/makedirs/mkstemp/write/close/move/rename calls that concern the module directory",
@@ -40,6 +40,7 @@ ASSUMPTIONS = [
 ]
 MIN_NONTRIVIAL = 60
 REQUIRED_COUNTERS = ["constructs_due", "constructs_not_due", "module_writer_calls_checked", "crash_points_fired", "recoveries_checked", "race_processes_ok", "midwrite_crashes"]
+REQUIRED_COUNTERS += ["thread_race_constructions"]
 SHARDS = {"quick": 32, "thorough": 64}
 
 _st = {}
@@ -395,6 +396,65 @@ def run_crash(case, res):
         shutil.rmtree(base, ignore_errors=True)
 
 
+def run_thread_race(case, res):
+    """several THREADS of this process construct Templates at once - for the same source and module path, and for
+    different sources in one module directory - with a tiny switch interval; every one renders its own source and
+    every module file left behind loads and renders correctly afterwards"""
+    import sys as _sys
+    import threading
+
+    T = _st["Template"]
+    n = case["n"]
+    base = tempfile.mkdtemp(prefix="c15t-")
+    old = _sys.getswitchinterval()
+    try:
+        md = os.path.join(base, "mods")
+        srcs = []
+        for i in range(n if case["distinct"] else 1):
+            sp = os.path.join(base, "t%d.html" % i)
+            with open(sp, "w") as f:
+                f.write("SRC#%d\n" % (100 + i) + "\n".join("line %d of template %d ${%d}" % (k, i, k) for k in range(400)))
+            srcs.append(sp)
+        outs = {}
+        start = threading.Barrier(n)
+
+        def work(i):
+            sp = srcs[i % len(srcs)]
+            try:
+                start.wait(20)
+                outs[i] = ("out", T(filename=sp, module_directory=md).render_unicode())
+            except Exception as e:
+                outs[i] = ("exc", "%s: %s" % (type(e).__name__, e))
+
+        _sys.setswitchinterval(1e-6)
+        ths = [threading.Thread(target=work, args=(i,), daemon=True) for i in range(n)]
+        for t in ths:
+            t.start()
+        for t in ths:
+            t.join(120)
+        _sys.setswitchinterval(old)
+        res.evaluations += 1
+        res.count("thread_race_constructions", n)
+        for i in range(n):
+            want = 100 + (i % len(srcs))
+            o = outs.get(i, ("exc", "no result"))
+            if o[0] != "out" or shown_version(o[1]) != want or not o[1].endswith("399"):
+                res.violate("thread-race-render", "%d threads constructing Templates at once (%s sources): thread %d got %r, expected the text of SRC#%d" % (
+                    n, "distinct" if case["distinct"] else "one", i, (o[1][:80] if o[0] == "out" else o), want))
+        # afterwards, from the files left on disk
+        for i, sp in enumerate(srcs):
+            try:
+                o = T(filename=sp, module_directory=md).render_unicode()
+                if shown_version(o) != 100 + i or not o.endswith("399"):
+                    res.violate("thread-race-module-file", "after the race the module file of %s renders %r" % (os.path.basename(sp), o[:80]))
+            except Exception as e:
+                res.violate("thread-race-module-file", "after the race the module file of %s cannot be used: %s: %s" % (os.path.basename(sp), type(e).__name__, e))
+        res.nontrivial("thread-race", n, case["distinct"], case.get("rep"))
+    finally:
+        _sys.setswitchinterval(old)
+        shutil.rmtree(base, ignore_errors=True)
+
+
 def run_race(case, res):
     n, scenario, pyc = case["n"], case["scenario"], case.get("pyc", False)
     base = tempfile.mkdtemp(prefix="c15r-")
@@ -460,6 +520,10 @@ def gen_cases(tier, seed):
         for n in (2, 3, 5, 8):
             for scenario in ("first", "stale"):
                 yield {"kind": "race", "n": n, "scenario": scenario, "rep": rep, "pyc": pyc and rep % 2 == 1}
+    for rep in range(2 if tier == "quick" else 20):
+        for n in (4, 8):
+            for distinct in (False, True):
+                yield {"kind": "thread-race", "n": n, "distinct": distinct, "rep": rep}
     kmax = 4 if tier == "quick" else 5
     batch = []
     for k in range(1, kmax + 1):
@@ -491,6 +555,8 @@ def run_case(case):
             run_hist(ops, res, {"kind": "hist", "histories": [ops]}, via=r.choice(VIAS))
     elif k == "crash":
         run_crash(case, res)
+    elif k == "thread-race":
+        run_thread_race(case, res)
     elif k == "race":
         run_race(case, res)
     return res
